@@ -26,8 +26,8 @@ using vh::Rng;
 
 namespace {
 
-const char *CLASSES[] = {"stateless", "multigroup", "feedforward", "autonomous", "movable", "negreg", "memory"};
-constexpr size_t NCLASSES = 7;
+const char *CLASSES[] = {"stateless", "multigroup", "feedforward", "autonomous", "movable", "negreg", "memory", "enablelogic"};
+constexpr size_t NCLASSES = 8;
 
 struct InPin { size_t w = 0; bool stall = false; };
 struct Member { int pin; std::string rst; };
@@ -74,7 +74,7 @@ struct Gen {
 		auto arg = [&](int i) -> const Step* { return i >= 0 ? &r.steps[i] : nullptr; };
 		for (int x : {s.a, s.b, s.c}) if (auto *p = arg(x)) { s.dep |= p->dep; s.ffd = std::max(s.ffd, p->ffd); s.ureg = std::max(s.ureg, p->ureg); }
 		if (s.kind == "ffreg") { s.ffd++; s.ureg++; }
-		if (s.kind == "mreg") s.ureg++;
+		if (s.kind == "mreg" || s.kind == "hreg") s.ureg++;
 		if (s.kind == "cnt") s.autonomous = true;
 		evalReset(s);
 		r.steps.push_back(s); int i = (int) r.steps.size() - 1;
@@ -87,7 +87,8 @@ struct Gen {
 		const std::string &k = s.kind; uint64_t m = maskOf(s.w);
 		s.rk = false;
 		if (k == "gin") { const auto &mm = r.groups[s.g].mem[s.m]; if (!mm.rst.empty()) { s.rk = true; s.rv = valOf(mm.rst); } return; }
-		if (k == "ffreg" || k == "mreg" || k == "cnt" || k == "negreg") {
+		if (k == "memrw") { if (K(s.a)) { s.rk = true; s.rv = 0; } return; } // memory powers on with zeros
+		if (k == "ffreg" || k == "mreg" || k == "cnt" || k == "negreg" || k == "hreg") {
 			if (k == "negreg") { if (K(s.a)) { s.rk = true; s.rv = V(s.a); } return; }
 			if (!s.rst.empty()) { s.rk = true; s.rv = valOf(s.rst); } return;
 		}
@@ -99,6 +100,7 @@ struct Gen {
 		else if (k == "xor" || k == "bxor") s.rv = V(s.a) ^ V(s.b); else if (k == "not" || k == "bnot") s.rv = ~V(s.a) & m;
 		else if (k == "addc") s.rv = (V(s.a) + s.k) & m; else if (k == "xorc") s.rv = (V(s.a) ^ s.k) & m;
 		else if (k == "eq") s.rv = V(s.a) == V(s.b); else if (k == "bit") s.rv = (V(s.a) >> s.k) & 1;
+		else if (k == "eqc") s.rv = V(s.a) == s.k;
 		else if (k == "mux") s.rv = V(s.c) ? V(s.b) : V(s.a);
 		else if (k == "cat") s.rv = (V(s.a) << w(s.b)) | V(s.b);    // a = high part
 		else if (k == "slice") s.rv = (V(s.a) >> s.k) & m; else if (k == "zext") s.rv = V(s.a);
@@ -157,6 +159,62 @@ struct Gen {
 		return -1;
 	}
 
+	// ---- class enablelogic: anchored registers / memory write ports inside the forward-retimed area whose ENABLE is computed from grouped inputs
+	// (forwardPlanningHandleEnablePort: the enable is split into the stall part and a residual part the planner retimes into).
+	// Such a register is a hold state that depends on the grouped inputs. The retiming keeps its reset value, so the hinted design equals the
+	// twin from cycle 0 iff the state is a fixed point of one step under the reset inputs (Lean: retime_state_neutral_reset): either the enable
+	// evaluates to 0 on the reset values (the idiom `valid = grp(valid, '0')`) or the register's reset value is what it would load.
+	int atomBit(int notStep = -1) { // an opaque grouped bit: grouped Bit input, bit of a grouped vector, comparison of a grouped vector with a constant
+		for (int t = 0; t < 8; t++) {
+			unsigned m = (unsigned) rng.below(3);
+			if (m == 0) { std::vector<int> c; for (size_t i = 0; i < r.steps.size(); i++) if (r.steps[i].kind == "gin" && r.steps[i].w == 0 && r.steps[i].rk && (int) i != notStep) c.push_back((int) i); if (!c.empty()) return c[rng.below(c.size())]; continue; }
+			if (vecs.empty()) continue;
+			int v = -1; for (int q = 0; q < 6 && v < 0; q++) { int x = pickVec(); if (grouped(x) && r.steps[x].rk) v = x; }
+			if (v < 0) continue;
+			if (m == 1) { Step s{.kind = "bit", .w = 0, .a = v}; s.k = rng.below(w(v)); return add(s); }
+			Step s{.kind = "eqc", .w = 0, .a = v}; s.k = rng.chance(1, 3) ? r.steps[v].rv : (rng.next() & maskOf(std::min<size_t>(w(v), 2))); return add(s);
+		}
+		return -1;
+	}
+	int enableExpr() {
+		int a = atomBit(); if (a < 0) return -1;
+		unsigned m = (unsigned) rng.below(6);
+		if (m <= 1) return a;                                   // (a) grouped input directly / (b) compare with constant
+		if (m == 2) return add(Step{.kind = "bnot", .w = 0, .a = a});   // NOT
+		int b = atomBit(a); if (b < 0 || b == a) return a;
+		if (r.groups.size() == 2) for (int t = 0; t < 4 && r.steps[b].dep == r.steps[a].dep; t++) { int b2 = atomBit(a); if (b2 >= 0 && b2 != a) b = b2; } // (c) mix the two groups
+		if (m == 3) return add(Step{.kind = "band", .w = 0, .a = a, .b = b});    // AND of two
+		if (m == 4) { int nb = add(Step{.kind = "bnot", .w = 0, .a = b}); return add(Step{.kind = "band", .w = 0, .a = a, .b = nb}); }
+		return add(Step{.kind = "bor", .w = 0, .a = a, .b = b});    // one opaque term
+	}
+	void holdPattern(size_t &nHints) {
+		if (vecs.empty()) return;
+		int v = -1; for (int t = 0; t < 10 && v < 0; t++) { int x = pickVec(); if (grouped(x) && r.steps[x].rk) v = x; }
+		if (v < 0) return;
+		int e = enableExpr(); if (e < 0 || !r.steps[e].rk) return;
+		int state;
+		if (rng.chance(1, 4) && w(v) <= 4 && r.reset == "none") {
+			// memory inside the area: asynchronous read, write port enabled by the grouped logic; fixed point = no write under the reset inputs.
+			// (clock without reset only: with a synchronous reset the write port of the hinted design writes what is presented during reset
+			//  while the twin's input registers are held in reset - the memory variant of the known reset-edge-sampling behaviour.)
+			if (r.steps[e].rv != 0) return;
+			int d = vecOfWidth(w(v)); if (!r.steps[d].rk) return;
+			Step m{.kind = "memrw", .w = w(v), .a = v, .b = d, .c = e}; m.fl = (int) rng.below(2); state = add(m);
+		} else {
+			Step h{.kind = "hreg", .w = w(v), .a = v, .c = e};
+			h.rst = r.steps[e].rv ? bitsOf(r.steps[v].rv, h.w) : rndBits(h.w);
+			state = add(h);
+		}
+		int b = vecOfWidth(w(v));
+		static const char *ops[] = {"add", "xor", "sub", "or"};
+		int x = add(Step{.kind = ops[rng.below(4)], .w = w(v), .a = state, .b = b});
+		size_t nst = 1 + rng.below(3);
+		for (size_t i = 0; i < nst; i++) {
+			x = add(Step{.kind = "stage", .w = w(v), .a = x}); nHints++;
+			if (i + 1 < nst && rng.chance(1, 2)) { Step f{.kind = "addc", .w = w(v), .a = x}; f.k = rng.next() & maskOf(w(v)); x = add(f); }
+		}
+	}
+
 	// pattern seeds: shapes the planner has special code for
 	void pattern(bool noGroup, size_t &nHints) {
 		const std::string &cls = r.cls;
@@ -201,14 +259,17 @@ struct Gen {
 		const std::string &cls = r.cls;
 		r.reset = rng.chance(1, 2) ? "sync" : "none";
 		{ unsigned m = (unsigned) rng.below(10); r.rmix = m < 4 ? "all" : (m < 7 ? "none" : "mixed"); }
+		if (cls == "enablelogic") r.rmix = "all"; // hold registers need defined enables and the state must be a fixed point under the reset inputs (see holdPattern)
 		if (cls == "negreg") r.rmix = "all"; // the register compensating a negative register needs the reset value of the signal it reproduces: known only if all inputs have one
 		r.xdata = false; // data inputs are always defined: with undefined inputs the optimiser (C01) legitimately changes definedness (x == x -> 1) differently in the two designs
 		r.ncyc = 20 + rng.below(16);
 		size_t nData = 1 + rng.below(4), nStall = rng.chance(1, 4) ? 0 : (rng.chance(2, 3) ? 1 : 2);
+		if (cls == "enablelogic") { nData = 2 + rng.below(3); if (rng.chance(1, 2)) nStall = 0; } // half of the designs have NO enclosing stall scope
 		for (size_t i = 0; i < nData; i++) r.ins.push_back(InPin{.w = (i > 0 && rng.chance(1, 4)) ? 0 : 1 + rng.below(8), .stall = false});
+		if (cls == "enablelogic") { r.ins[1].w = rng.chance(1, 2) ? 0 : 2; } // a grouped "valid" bit or a 2 bit "tag" that controls enables
 		for (size_t i = 0; i < nStall; i++) { r.ins.push_back(InPin{.w = 0, .stall = true}); r.enPins.push_back((int) r.ins.size() - 1); }
 		bool noGroup = (cls == "movable") && rng.chance(1, 3);
-		size_t nGroups = noGroup ? 0 : ((cls == "multigroup") ? 2 : 1);
+		size_t nGroups = noGroup ? 0 : ((cls == "multigroup" || (cls == "enablelogic" && rng.chance(1, 4))) ? 2 : 1);
 		r.groups.resize(nGroups);
 		std::vector<int> entryPins; // movable without group: raw pins
 		for (size_t i = 0; i < nData; i++) {
@@ -250,6 +311,7 @@ struct Gen {
 				s.fl = 1 + 2 * (int) rng.below(2); // 1 forward, 3 forward + backward (a register that may not move forward is a feed-forward register: class feedforward)
 				if (rng.chance(1, 3)) s.c = condBit(); // stricter enable: en & cnd  -> enable splitting / holding circuit
 				add(s); }
+			else if (c < 40 && cls == "enablelogic") holdPattern(nHints);
 			else if (c < 34 && cls == "negreg") { int v = anyGroupedValue(); if (v < 0) continue;
 				const Step &sv = r.steps[v];
 				bool wantRst = r.rmix == "all";
@@ -319,7 +381,7 @@ void analyseRecipe(Recipe &r) {
 		for (auto &s : r.steps) {
 			s.ffd = 0; s.ureg = 0;
 			for (int x : {s.a, s.b, s.c}) if (x >= 0) { s.ffd = std::max(s.ffd, r.steps[x].ffd); s.ureg = std::max(s.ureg, r.steps[x].ureg); }
-			if (s.kind == "ffreg" || s.kind == "mreg") s.ureg++;
+			if (s.kind == "ffreg" || s.kind == "mreg" || s.kind == "hreg") s.ureg++;
 			if (s.kind == "ffreg" || (s.kind == "mreg" && s.h > 1 && !(s.fl & 4))) s.ffd++;
 		}
 	}
@@ -464,6 +526,14 @@ void buildDesign(const Recipe &r, Variant var, const std::vector<size_t> &N, Bui
 			else if (k == "bxor") vals[i] = Bit(bit(s.a) ^ bit(s.b));
 			else if (k == "bnot") vals[i] = Bit(!bit(s.a));
 			else if (k == "eq") vals[i] = Bit(vec(s.a) == vec(s.b));
+			else if (k == "eqc") { UInt c = vh::constU(bitsOf(s.k, r.steps[s.a].w)); vals[i] = Bit(vec(s.a) == c); }
+			else if (k == "hreg") { EnableScope inner(bit(s.c)); vals[i] = regOpt(vec(s.a), s.rst); }
+			else if (k == "memrw") {
+				Memory<UInt> mem(size_t(1) << s.w, BitWidth(s.w)); mem.setPowerOnStateZero(); mem.setType(MemType::DONT_CARE, 0);
+				UInt rd = mem[vec(s.a)];
+				IF (bit(s.c)) mem[vec(s.a)] = s.fl ? UInt(rd + vec(s.b)) : UInt(vec(s.b));
+				vals[i] = rd;
+			}
 			else if (k == "bit") vals[i] = Bit(vec(s.a)[s.k]);
 			else if (k == "mux") { if (s.w == 0) vals[i] = Bit(mux(bit(s.c), {bit(s.a), bit(s.b)})); else vals[i] = UInt(mux(bit(s.c), {vec(s.a), vec(s.b)})); }
 			else if (k == "cat") vals[i] = UInt(cat(vec(s.a), vec(s.b)));
